@@ -25,7 +25,7 @@ from .absint import (Interp, Int, Const, NONE, NodeV, SelfV, TupleV, ListObj, Di
                      Opaque, BoundMethod, Builtin, TypeV, run_all_choices)
 from .query_check import QueryWorld, Shape, to_py
 
-LABELS = {"A": "A", "B": "B", "AB": "AB", "C": "C"}
+LABELS = {"A": "A", "B": "B", "AB": "AB", "C": "C", "D": "D", "X": "X", "Y": "Y"}
 
 
 class LabelV:
@@ -71,6 +71,24 @@ class TidStr:
         self.tid = tid
 
 
+class StaticRec:
+    """nx.Graph() used as a scratch picture of one snapshot (undirected adjacency)."""
+
+    def __init__(self):
+        self.adj = {}
+
+    def add_edge(self, a, b):
+        self.adj.setdefault(a, [])
+        self.adj.setdefault(b, [])
+        if b not in self.adj[a]:
+            self.adj[a].append(b)
+        if a not in self.adj[b]:
+            self.adj[b].append(a)
+
+    def __repr__(self):
+        return "nx.Graph(%d nodes)" % len(self.adj)
+
+
 class DagRec:
     def __init__(self):
         self.nodes, self.edges = [], []
@@ -87,9 +105,9 @@ IDS = (1, 2, 4)         # snapshot ids t+1, t+2, t+4: a silent instant (t+3) lie
 
 
 class DagLoopWorld(QueryWorld):
-    def __init__(self, cls, shape, choices, methods, functions, n_ids=3, str_nodes=True):
+    def __init__(self, cls, shape, choices, methods, functions, n_ids=3, str_nodes=True, ids=None):
         super().__init__(cls, shape, choices, methods, functions)
-        self.ids = [T(k) for k in IDS[:n_ids]]
+        self.ids = list(ids) if ids is not None else [T(k) for k in IDS[:n_ids]]
         self.str_nodes = str_nodes
         self.materialise_timelines(self.ids)
         self.dags = []
@@ -122,15 +140,24 @@ class DagLoopWorld(QueryWorld):
             return Opaque("module:" + name)
         return super().resolve_name(ip, name, node)
 
+    def load_subscript(self, ip, obj, key, node):
+        if isinstance(obj, StaticRec):
+            if key not in obj.adj:
+                raise AbstractRaise("KeyError", node)
+            return ListObj(list(obj.adj[key]))
+        return super().load_subscript(ip, obj, key, node)
+
     def load_attr(self, ip, obj, attr, node):
         from .query_check import SnapView
-        if isinstance(obj, (OccV, NodeV, DagRec, TidStr, SnapView)):
+        if isinstance(obj, (OccV, NodeV, DagRec, StaticRec, TidStr, SnapView)):
             return BoundMethod(obj, attr)
         if isinstance(obj, Const) and isinstance(obj.v, str):
             return BoundMethod(obj, attr)
         return super().load_attr(ip, obj, attr, node)
 
     def contains(self, ip, container, x, node):
+        if isinstance(container, StaticRec):
+            return x in container.adj
         if isinstance(container, OccV) and isinstance(x, Const) and x.v == "_":
             return True
         if isinstance(container, (LabelV, NodeV)) and isinstance(x, Const) and x.v == "_":
@@ -192,6 +219,31 @@ class DagLoopWorld(QueryWorld):
         from .query_check import SnapView
         if isinstance(obj, SnapView) and name == "keys" and not args:
             return ListObj(self.unsorted_ids())
+        if isinstance(obj, StaticRec):
+            if name == "add_edge" and len(args) == 2:
+                obj.add_edge(args[0], args[1])
+                return NONE
+            if name == "add_edges_from" and len(args) == 1:
+                seq = ip._seq(args[0], node)
+                if seq is not None and all(isinstance(x, (TupleV, ListObj)) and len(x.items) >= 2 for x in seq):
+                    for x in seq:
+                        obj.add_edge(x.items[0], x.items[1])
+                    return NONE
+            if name in ("add_node",) and len(args) == 1:
+                obj.adj.setdefault(args[0], [])
+                return NONE
+            if name in ("neighbors", "__getitem__", "adj") and len(args) == 1:
+                if args[0] not in obj.adj:
+                    raise AbstractRaise("KeyError" if name != "neighbors" else "NetworkXError", node)
+                return IterV(list(obj.adj[args[0]]))
+            if name == "has_node" and len(args) == 1:
+                return Const(args[0] in obj.adj)
+            if name == "has_edge" and len(args) == 2:
+                return Const(args[1] in obj.adj.get(args[0], []))
+            if name == "nodes" and not args:
+                return ListObj(list(obj.adj))
+            if name == "degree" and len(args) == 1:
+                return Const(len(obj.adj.get(args[0], [])))
         if isinstance(obj, DagRec):
             if name == "add_node" and len(args) == 1:
                 if args[0] not in obj.nodes:
@@ -251,6 +303,8 @@ class DagLoopWorld(QueryWorld):
 
     def concretise_iter(self, ip, it, node):
         from .query_check import SnapView
+        if isinstance(it, StaticRec):
+            return ListObj(list(it.adj))
         if isinstance(it, DagRec):
             return ListObj(list(it.nodes))
         if isinstance(it, SnapView):
@@ -259,6 +313,8 @@ class DagLoopWorld(QueryWorld):
 
     def call(self, ip, f, args, kwargs, node):
         if isinstance(f, Opaque):
+            if f.tag == "module:nx.Graph" and not args:
+                return StaticRec()
             if f.tag == "module:nx.DiGraph" and not args:
                 d = DagRec()
                 self.dags.append(d)
@@ -285,10 +341,6 @@ class DagLoopWorld(QueryWorld):
                 return args[0]
         return super().call(ip, f, args, kwargs, node)
 
-    def load_subscript(self, ip, obj, key, node):
-        if isinstance(obj, SelfV) and isinstance(key, (NodeV,)):
-            return super().load_subscript(ip, obj, key, node)
-        return super().load_subscript(ip, obj, key, node)
 
 
 def simple_paths(dag: DagRec, x, y):
@@ -404,30 +456,39 @@ def _check_dag_and_paths(repo: Repo, rep: Report, tier, which, ot):
             P = PresenceTable(shape, seed, ids)
             win = [t for t in ids if (window[0] is None or t.k >= window[0].k) and (window[1] is None or t.k <= window[1].k)]
             wit = "%s %s | root %s, v=%s, window=%s | present: %s" % (
-                cls, shape.name, root, vt, "all ids (t+1, t+2, t+4)" if window[0] is None else "[t%+d,t%+d] of ids t+1, t+2, t+4" % (window[0].k, window[1].k),
+                cls, shape.name, root, vt, ("all ids (%s)" % ", ".join("t%+d" % t.k for t in ids)) if window[0] is None else "[t%+d,t%+d] of ids %s" % (
+                    window[0].k, window[1].k, ", ".join("t%+d" % t.k for t in ids)),
                 ", ".join("%s%s%s@%s" % (k[1][0], "->" if directed else "-", k[1][1], k[2]) for k, v in sorted(seed.items(), key=str) if v) or "nothing")
             env = {"G": SelfV(), "u": NodeV(root), "v": NodeV(vt) if vt else NONE,
                    "start": window[0] if window[0] is not None else NONE, "end": window[1] if window[1] is not None else NONE}
-            if "dag" in which:
-                w = DagLoopWorld(cls, shape, dict(seed), methods, functions, n_ids, str_nodes)
-                ip = Interp(w, ot, max_depth=8)
-                try:
-                    val = ip.call_function(fn_dag, dict(env))
-                    stats["dags"] += 1
-                    _judge_dag(add, c_dag, val, P, shape, root, vt, win, wit)
-                except AbstractRaise as r:
-                    add(c_dag, "raises:%s" % r.exc, "temporal_dag raises %s (%s)" % (r.exc, r.detail), wit, getattr(r.node, "lineno", 0))
-            if "paths" in which:
-                w = DagLoopWorld(cls, shape, dict(seed), methods, functions, n_ids, str_nodes)
-                ip = Interp(w, ot, max_depth=10)
-                env2 = dict(env)
-                env2["sample"] = Const(1)
-                try:
-                    val = ip.call_function(fn_trp, env2)
-                    stats["paths"] += 1
-                    _judge_paths(add, c_trp, val, P, shape, root, vt, win, window, wit)
-                except AbstractRaise as r:
-                    add(c_trp, "raises:%s" % r.exc, "time_respecting_paths raises %s (%s)" % (r.exc, r.detail), wit, getattr(r.node, "lineno", 0))
+            custom = ids if [t.k for t in ids] != list(IDS[:n_ids]) else None
+            for what, fn_, construct, depth in (("dag", fn_dag, c_dag, 8), ("paths", fn_trp, c_trp, 10)):
+                if what not in which:
+                    continue
+
+                def once(ch, fn_=fn_, depth=depth, what=what):
+                    w = DagLoopWorld(cls, shape, ch, methods, functions, n_ids, str_nodes, ids=custom)
+                    ip = Interp(w, ot, max_depth=depth)
+                    env2 = dict(env)
+                    if what == "paths":
+                        env2["sample"] = Const(1)
+                    try:
+                        return ip.call_function(fn_, env2), None
+                    except AbstractRaise as r:
+                        return None, r
+                # facts outside the presence valuation (is a node id falsy?) are explored as choices
+                for ch, (val, r) in run_all_choices(once, max_runs=16, seed=dict(seed)):
+                    extra = {k: v for k, v in ch.items() if k not in seed and v}
+                    wit2 = wit + ((" | " + ", ".join("%s" % (k,) for k in extra)) if extra else "")
+                    if r is not None:
+                        add(construct, "raises:%s" % r.exc, "%s raises %s (%s)" % (fn_.name, r.exc, r.detail), wit2, getattr(r.node, "lineno", 0))
+                        continue
+                    if what == "dag":
+                        stats["dags"] += 1
+                        _judge_dag(add, c_dag, val, P, shape, root, vt, win, wit2)
+                    else:
+                        stats["paths"] += 1
+                        _judge_paths(add, c_trp, val, P, shape, root, vt, win, window, wit2)
 
         if "dag" in which:
             # the root carries a self-loop: an occurrence must not become its own successor
@@ -463,6 +524,20 @@ def _check_dag_and_paths(repo: Repo, rep: Report, tier, which, ot):
             seed = {("present", k, repr(t)): (t.k in on) for k, on in zip(keys, combo) for t in ids}
             for vt in (None, "B"):
                 run_case(cyc, ids, "A", vt, (None, None), True, seed)
+        # ... and a walk that returns to its source, finds it idle at the next snapshot and would leave it afterwards: the
+        # occurrence of the source reached through the cycle expires like any other (five snapshot ids, one valuation each)
+        ids5 = [T(k) for k in (1, 2, 3, 4, 5)]
+        if directed:
+            back = Shape("cycle A->B->C->A, X->Y, A->D", ["A", "B", "C", "D", "X", "Y"], [("A", "B"), ("B", "C"), ("C", "A"), ("X", "Y"), ("A", "D")], True)
+            on = {("A", "B"): (1,), ("B", "C"): (2,), ("C", "A"): (3,), ("X", "Y"): (4,)}
+        else:
+            back = Shape("cycle A-B-C-A, X-Y, A-D", ["A", "B", "C", "D", "X", "Y"], [("A", "B"), ("B", "C"), ("A", "C"), ("X", "Y"), ("A", "D")], False)
+            on = {("A", "B"): (1,), ("B", "C"): (2,), ("A", "C"): (3,), ("X", "Y"): (4,)}
+        for ad in ((5,), (3, 5), (4, 5), (1, 5)):
+            pres = dict(on)
+            pres[("A", "D")] = ad
+            seed = {("present", k, repr(t)): (t.k in pres[k]) for k in pres for t in ids5}
+            run_case(back, ids5, "A", None, (None, None), True, seed)
     for (construct, key), f in sorted(findings.items()):
         rep.finding("Q.paths", construct, key, f["message"] + " [%d valuations]" % f["count"], witness=f["witness"], line=f["line"])
     if "dag" in which:
@@ -708,14 +783,26 @@ def _check_completeness(repo: Repo, rep: Report, tier, ot):
                         stats["runs"] += 1
                         wit = "%s %s | u=%s, v=%s, window=%s | present: %s" % (
                             cls, shape.name, root, vt, "all ids (t+1, t+2, t+4)" if window[0] is None else "[t+2,t+4]", pres)
-                        w = DagLoopWorld(cls, shape, dict(seed), methods, functions, n_ids, True)
-                        ip = Interp(w, ot, max_depth=10)
                         env = {"G": SelfV(), "u": NodeV(root), "v": NodeV(vt) if vt else NONE,
                                "start": window[0] if window[0] is not None else NONE, "end": window[1] if window[1] is not None else NONE,
                                "sample": Const(1)}
-                        try:
-                            val = ip.call_function(fn_trp, env)
-                        except AbstractRaise as r:
+
+                        def once(ch, env=env):
+                            w = DagLoopWorld(cls, shape, ch, methods, functions, n_ids, True)
+                            ip = Interp(w, ot, max_depth=10)
+                            try:
+                                return ip.call_function(fn_trp, dict(env)), None
+                            except AbstractRaise as r:
+                                return None, r
+                        runs = run_all_choices(once, max_runs=16, seed=dict(seed))
+                        # facts outside the valuation (a falsy node id ...) are choices: every one of them must give the full set
+                        val, r = runs[0][1]
+                        for ch_, (v_, r_) in runs[1:]:
+                            if r_ is not None or _returned_paths(v_) != _returned_paths(val):
+                                val, r = v_, r_
+                                wit += " | " + ", ".join(str(k) for k, x in ch_.items() if k not in seed and x)
+                                break
+                        if r is not None:
                             add(c_trp, "raises:%s" % r.exc, "time_respecting_paths raises %s (%s)" % (r.exc, r.detail), wit, getattr(r.node, "lineno", 0))
                             continue
                         stats["paths"] += 1
